@@ -143,6 +143,8 @@ type httpProxy struct {
 	Reqs    []connectReq
 	Tunnels []string // local addresses of outgoing connections
 	TLSIn   int      // inbound connections that started with a TLS handshake
+	// AfterRefusal holds bytes the client sent after a non-200 reply
+	AfterRefusal []byte
 }
 
 func newHTTPProxy(tlsCfg *tls.Config, resolve func(string) string, status int) (*httpProxy, error) {
@@ -213,6 +215,16 @@ func (p *httpProxy) handle(c net.Conn) {
 			fmt.Fprintf(conn, "HTTP/1.1 %d\r\n\r\n", p.Status)
 		} else {
 			fmt.Fprintf(conn, "HTTP/1.1 %d Nope\r\nContent-Length: 0\r\n\r\n", p.Status)
+		}
+		// a client that aborts closes the connection; one that goes on sends its
+		// WebSocket request into the refused tunnel
+		conn.SetReadDeadline(time.Now().Add(400 * time.Millisecond))
+		buf := make([]byte, 64)
+		n, _ := io.ReadAtLeast(br, buf, 1)
+		if n > 0 {
+			p.mu.Lock()
+			p.AfterRefusal = append(p.AfterRefusal, buf[:n]...)
+			p.mu.Unlock()
 		}
 		return
 	}
